@@ -7,7 +7,7 @@ from props import pyref
 class P(StreamProperty):
     pid = 'C04'
     module = 'OpenFecVerif.Props.C04'
-    theorems = ['C04_eq', 'C04_order_dup_independent', 'wf_of_check']
+    theorems = ['C04_eq', 'C04_order_dup_independent', 'wf_of_check', 'C04_session']
     rule = ('LDPC decoder sessions observed after EVERY of_decode_with_new_symbol call (available source symbols, completion flag, and the '
             "decoder's remaining matrix): all arrival sequences without repetition for n<=6, all subsets x shuffled orders with duplicates for n<=nmax, sampled k up to 2000; "
             'even N1 (pretend-received null symbol) included; heavy columns (N1 up to n-k) and stars (decoding stuck, then one symbol arrives that leaves >= 5 equations with a single unknown at once);  compared with the transliterated decoder model AND, as the direct oracle, with the peeling closure computed '
